@@ -259,12 +259,32 @@ func c01Eval(r *hx.Run, cs c01Case, dir string) {
 		return
 	}
 	var bugs []string
+	modelled := false // a blocker of a kind the Lean model covers (parse errors, PromQL/template syntax, durations)
 	for _, rep := range res.Reports {
 		if rep.Problem.Severity >= checks.Bug {
 			bugs = append(bugs, fmt.Sprintf("%s/%s: %s", rep.Problem.Reporter, rep.Problem.Severity, rep.Problem.Summary))
+			r.Count("blocker:" + rep.Problem.Reporter)
+			switch {
+			case rep.Problem.Reporter == "yaml/parse", rep.Problem.Reporter == "promql/syntax":
+				modelled = true
+			case rep.Problem.Reporter == "alerts/template" && rep.Problem.Summary == "template syntax error":
+				modelled = true
+			case rep.Problem.Reporter == "alerts/for":
+				modelled = true
+			}
 		}
 	}
 	_, errs := rulefmt.Parse([]byte(cs.Content), false)
+	if doc, ok := c01Doc([]byte(cs.Content)); ok {
+		b, _ := json.Marshal(doc)
+		mode := "exact"
+		if len(cs.Traits) > 0 && cs.Traits[len(cs.Traits)-1] == "mutated" {
+			mode = "implied"
+		}
+		r.Op(fmt.Sprintf("loadcheck\t%s\t%v\t%v\t%s", mode, modelled, len(errs) > 0, string(b)), "ok")
+	} else {
+		r.Count("outside-model-domain")
+	}
 	r.Case(cs.Content, len(errs) > 0)
 	r.Count(fmt.Sprintf("pint-blocks:%v prometheus-rejects:%v", len(bugs) > 0, len(errs) > 0))
 	for _, t := range cs.Traits {
